@@ -2479,6 +2479,363 @@ fn sweep_vs_end_lock_order(rep: &mut Report, name: &'static str, filler_locks: u
             "lean": "OrderProps.sweep_old_deadlocks_with_end_of_tx_witness (schedule [1,0,0]: commit takes pending.write, the sweep takes locks.write + tx_locks.write, then each waits for the other)"}));
 }
 
+// ------------------------------------------------------------------ the critical-section model at call granularity
+
+/// `section.calls`: the model of Locks/SectionModel.lean (thread i runs transaction i: prepares over its shards, then
+/// the end of the transaction; every call split into the steps another thread can interleave with) is tied to the
+/// source at CALL granularity: a random order of whole calls on a real LockManager + WaitForGraph (frozen clock, the
+/// clock moves between calls), each mirrored by `scall i now` = the thread's steps up to its next call boundary with
+/// no other thread in between.  Compared after every call: lock table, tx index, both graph indexes, wait starts,
+/// the set of ended transactions.  (Inside a call nothing can be observed from outside — no yield point — so the
+/// step-level statements are Lean theorems and the step-level regression oracle is threads.prepare_vs_end.)
+fn section_calls_case(m: &mut Model, rep: &mut Report, r: &mut Rng) {
+    let stream = "section.calls";
+    let to = 1 + r.below(3);
+    let nth = 2 + r.below(3) as usize;
+    let progs: Vec<Vec<Vec<u64>>> = (0..nth).map(|_| (0..1 + r.below(2)).map(|_| gen_keys(r, 3)).collect()).collect();
+    let text = progs.iter().map(|th| th.iter().map(|ks| dotted(ks)).collect::<Vec<_>>().join(";")).collect::<Vec<_>>().join("/");
+    let mut real = RealTable::new_hooked(to);
+    let g = WaitForGraph::new();
+    let init = format!("sinit 0 {to} {text}");
+    if m.ask(&init) != "ok" { rep.disagree(stream, json!({"line": init}), "ok", "sinit refused"); return; }
+    let mut next = vec![0usize; nth];
+    let mut handles: Vec<Vec<u64>> = vec![Vec::new(); nth];
+    let mut ended: BTreeSet<u64> = BTreeSet::new();
+    let mut trace = vec![init];
+    let (mut refused, mut granted) = (0, 0);
+    loop {
+        let live: Vec<usize> = (0..nth).filter(|i| !ended.contains(&(*i as u64))).collect();
+        if live.is_empty() { break; }
+        let i = *r.pick(&live);
+        if r.chance(1, 3) { real.advance(r.below(3)); }
+        let now = real.vnow;
+        if next[i] < progs[i].len() {
+            let keys: Vec<String> = progs[i][next[i]].iter().map(|k| kname(*k)).collect();
+            next[i] += 1;
+            match real.lm.try_lock_with_wait_tracking(i as u64, &keys, &g, None) {
+                Ok(h) => { real.h_to_model(h); handles[i].push(h); granted += 1; rep.hit("section.calls.prepare.granted"); }
+                Err(_) => { refused += 1; rep.hit("section.calls.prepare.refused"); }
+            }
+        } else {
+            for h in &handles[i] { real.lm.release_by_handle_with_wait_cleanup(*h, &g); }
+            g.remove_transaction(i as u64);
+            ended.insert(i as u64);
+            rep.hit("section.calls.end");
+        }
+        let line = format!("scall {i} {now}");
+        trace.push(line.clone());
+        let img = real.image();
+        let Some(v) = view(&g) else { rep.disagree(stream, json!({"trace": trace}), "unparseable Debug", ""); return; };
+        let mut gi = graph_img(&v, 0);
+        if gi.ends_with(";P") { gi.push(' '); }
+        let pcs: Vec<String> = (0..nth).map(|t| if ended.contains(&(t as u64)) { "done".to_string() } else { format!("prep{}", progs[t].len() - next[t]) }).collect();
+        let imp = format!("ok | {} | {} | X {};G -;C {}", img.show(), gi, dotted(&ended.iter().copied().collect::<Vec<_>>()), pcs.join(","));
+        let mo = m.ask(&line);
+        if !rep.compare(stream, || json!({"trace": trace}), &imp, &mo) { return; }
+    }
+    let key = trace.join(";");
+    rep.case(stream, if refused >= 1 && granted >= 1 { Some(&key) } else { None });
+}
+
+/// the two witness schedules of Locks/SectionProps.lean replayed on the driver, step by step: with the edges recorded
+/// after the guards were dropped (`sinit 1`) the ended transaction 0 ends up as a holder; with the code as it is
+/// (`sinit 0`) the blocker's release is refused while the preparer is between its scan and its last add_wait
+fn section_witness(m: &mut Model, rep: &mut Report) {
+    let stream = "section.witness";
+    let sched = [0u64, 0, 0, 1, 0, 0, 0, 0, 1];
+    for early in [1u64, 0] {
+        let mut trace = vec![format!("sinit {early} 30 5/5")];
+        let mut last = m.ask(&trace[0]);
+        let mut refused_at = None;
+        for (n, i) in sched.iter().enumerate() {
+            let line = format!("sstep {i} 0");
+            trace.push(line.clone());
+            last = m.ask(&line);
+            if last == "refused" { refused_at = Some(n); break; }
+        }
+        let (want, got) = if early == 1 {
+            ("ok | L ;T 0:;D 30;N 0 | E 1:0;R 0:1;W 1=0;P  | X 0;G -;C done,adding0".to_string(), last)
+        } else {
+            ("refused at step 5 (A's release_by_handle section, B holds the guards)".to_string(), match refused_at { Some(5) => "refused at step 5 (A's release_by_handle section, B holds the guards)".to_string(), o => format!("refused at {o:?}: {last}") })
+        };
+        rep.compare(stream, || json!({"trace": trace}), &want, &got);
+        rep.hit(if early == 1 { "section.witness.drop_guards_first.ended_holder_in_graph" } else { "section.witness.guards_held.release_refused" });
+        rep.case(stream, Some(&format!("early{early}")));
+    }
+}
+
+/// `sched.prepare_vs_end`: the same two calls under the deterministic scheduler (`nverif::sched`).  The coordinator
+/// has no yield point of its own today, so without the proposed hook (/verif/proposed/C12-hook-wait-tracking-yield.diff:
+/// `lock_manager.try_lock_wt.before_add_wait` reporting "guards held" / "guards released", …) the two calls run one after
+/// the other in either order (distribution key sched.prepare_vs_end.no_yield_inside_call).  With the hook compiled in,
+/// the schedule of SectionProps.drop_guards_first_leaves_ended_holder_witness is followed on the real code: the
+/// preparer runs to its first `before_add_wait`; if the guards are reported released the ender runs all its ends, then
+/// the preparer records its edges — a deterministic failing schedule (the executed trace is the failing input);
+/// if they are reported held the ender is tried once and must block inside its release (`blocked` in the trace).
+fn sched_prepare_vs_end(rep: &mut Report, r: &mut Rng, holders: usize) {
+    const BEFORE_ADD: &str = "lock_manager.try_lock_wt.before_add_wait";
+    const HOWS: [&str; 4] = ["commit", "abort", "force_resolve(commit)", "force_resolve(abort)"];
+    let stream = "sched.prepare_vs_end";
+    let c = Arc::new(DistributedTxCoordinator::new(ConsensusManager::new(ConsensusConfig::default()), co_config(1_000_000)));
+    let keys: Vec<u64> = (0..holders as u64).collect();
+    let mut holders_tx: Vec<(u64, u64)> = Vec::new();
+    for j in 0..holders {
+        let Ok(t) = c.begin(&"n1".to_string(), &[0]) else { return; };
+        let v = c.handle_prepare(&prep(t.tx_id, &[keys[j]], j));
+        if !matches!(v, PrepareVote::Yes { .. }) { return; }
+        if !matches!(c.record_vote(t.tx_id, 0, v), Ok(Some(TxPhase::Prepared))) { return; }
+        holders_tx.push((t.tx_id, r.below(4)));
+    }
+    let Ok(b) = c.begin(&"n1".to_string(), &[0]).map(|t| t.tx_id) else { return; };
+    let preparer_first = r.chance(2, 3);
+    let vote: Arc<std::sync::Mutex<String>> = Arc::new(std::sync::Mutex::new(String::new()));
+    let ended_ok: Arc<std::sync::Mutex<Vec<bool>>> = Arc::new(std::sync::Mutex::new(Vec::new()));
+    let t_prep: Box<dyn FnOnce() + Send> = {
+        let (c, vote, keys) = (c.clone(), vote.clone(), keys.clone());
+        Box::new(move || {
+            tensor_store::verif::yield_point("pve.handle_prepare", "");
+            let v = c.handle_prepare(&prep(b, &keys, 7));
+            *vote.lock().unwrap() = match &v { PrepareVote::Yes { .. } => "Yes".to_string(), PrepareVote::Conflict { .. } => "Conflict".to_string(), _ => "No".to_string() };
+            let _ = c.record_vote(b, 0, v);
+        })
+    };
+    let t_end: Box<dyn FnOnce() + Send> = {
+        let (c, ended_ok, hs) = (c.clone(), ended_ok.clone(), holders_tx.clone());
+        Box::new(move || {
+            for (tx, how) in hs {
+                tensor_store::verif::yield_point("pve.end", "");
+                let ok = match how { 0 => c.commit(tx).is_ok(), 1 => c.abort(tx, "sched").is_ok(), 2 => c.force_resolve(tx, true).is_ok(), _ => c.force_resolve(tx, false).is_ok() };
+                ended_ok.lock().unwrap().push(ok);
+            }
+        })
+    };
+    let mut tried_under_guards = 0;
+    let mut sr = r.fork("schedule");
+    let trace = nverif::sched::run_threads(vec![t_prep, t_end], move |_, parked| {
+        let pos = |t: usize| parked.iter().position(|p| p.0 == t);
+        if let Some(p) = parked.iter().position(|p| p.0 == 0 && p.1 == BEFORE_ADD) {
+            if parked[p].2 == "guards released" { return pos(1).unwrap_or(p); }
+            // guards held: let the ender run (it passes its own harness-level yield, then must block inside its
+            // release: a blocked thread is no longer in `parked`), then the preparer
+            if tried_under_guards < 3 { tried_under_guards += 1; return pos(1).unwrap_or(p); }
+            return p;
+        }
+        // outside the window: the chosen side goes first, later steps at random
+        match (pos(0), pos(1)) {
+            (Some(a), Some(e)) => if parked[a].1 == "thread.start" || parked[a].1 == "pve.handle_prepare" { if preparer_first { a } else { e } } else { sr.below(2) as usize },
+            _ => 0,
+        }
+    });
+    let inside: Vec<&nverif::sched::Step> = trace.iter().filter(|s| s.site.starts_with("lock_manager.")).collect();
+    rep.hit(if inside.is_empty() { "sched.prepare_vs_end.no_yield_inside_call" } else { "sched.prepare_vs_end.yield_inside_call" });
+    for s in &trace {
+        if s.site == BEFORE_ADD { rep.hit(&format!("sched.prepare_vs_end.before_add_wait.{}", s.key.replace(' ', "_"))); }
+        if s.thread == 0 && s.site == BEFORE_ADD && s.blocked.contains(&1) { rep.hit("sched.prepare_vs_end.release_blocked_by_section"); }
+    }
+    let g = c.wait_graph();
+    let b_waits_for = g.waiting_for(b);
+    let oks = ended_ok.lock().unwrap().clone();
+    let mut leftovers = Vec::new();
+    for (j, (a, how)) in holders_tx.iter().enumerate() {
+        if !oks.get(j).copied().unwrap_or(false) { continue; }
+        let (on, wf) = (g.waiting_on(*a), g.waiting_for(*a));
+        if !on.is_empty() || !wf.is_empty() || b_waits_for.contains(a) {
+            leftovers.push(json!({"holder": format!("A{}", j + 1), "ended_by": HOWS[*how as usize], "waiting_on(holder)": on.len(), "waiting_for(holder)": wf.len(), "holder in waiting_for(B)": b_waits_for.contains(a)}));
+        }
+    }
+    if !leftovers.is_empty() {
+        rep.violation("DistributedTxCoordinator/ended_tx_in_wait_graph_prepare_vs_end",
+            "a transaction whose end returned while another transaction's conflicting prepare was running is still recorded in the wait-for graph after both calls returned (deterministic schedule)",
+            json!({"stream": stream, "set_up": format!("A1..A{holders} each hold one key with a recorded Yes vote; B begun"), "thread_0": format!("handle_prepare(B, all {holders} keys) -> {}", vote.lock().unwrap()),
+                "thread_1": holders_tx.iter().enumerate().map(|(j, (_, how))| format!("{}(A{})", HOWS[*how as usize], j + 1)).collect::<Vec<_>>(),
+                "schedule": trace.iter().map(|s| format!("T{} from {}{}{}", s.thread, s.site, if s.key.is_empty() { String::new() } else { format!(" [{}]", s.key) }, if s.blocked.is_empty() { String::new() } else { format!(" (blocked: {:?})", s.blocked) })).collect::<Vec<_>>(),
+                "ended_transactions_still_in_graph": leftovers,
+                "lean": "SectionProps.drop_guards_first_leaves_ended_holder_witness"}));
+    }
+    if c.commit(b).is_err() { let _ = c.abort(b, "case over"); }
+    if !g.is_empty() || c.lock_manager().active_lock_count() != 0 {
+        rep.hit("sched.prepare_vs_end.leftovers_after_case");
+    }
+    let key = format!("{holders}:{preparer_first}:{:?}:{}", holders_tx.iter().map(|h| h.1).collect::<Vec<_>>(), trace.len());
+    rep.case(stream, Some(&key));
+}
+
+// ------------------------------------------------------------------ a conflicting prepare against the end of its blockers (OS threads, aligned rounds)
+
+/// `threads.prepare_vs_end.*`: the two calls whose overlap the clause "when a transaction commits / aborts … it no
+/// longer appears as waiter or holder in the wait-for graph" quantifies over, and nothing else, in many short rounds
+/// on ONE real coordinator.  A round: `holders` transactions A1..Ak each hold one key (prepared, vote recorded) and a
+/// fresh transaction B is begun.  Then, started together through a spin flag (plus a per-round delay of a few hundred
+/// nanoseconds on one side, so that the relative phase of the two calls sweeps the whole overlap),
+///   preparer:  handle_prepare(B, [k1..kk])            — refused: one wait-for edge per live blocker
+///   ender:     end(A1); …; end(Ak)                    — commit / abort / force_resolve(commit) / force_resolve(abort)
+/// Oracle, evaluated when BOTH have returned and before B ends (B's own end would wipe its edges): no Aj whose end
+/// returned Ok is a holder (waiting_on(Aj), or a member of waiting_for(B)) or a waiter (waiting_for(Aj)) any more.
+/// `edges` and `reverse_edges` are read separately, so an edge present in only one index counts.  Then B ends and
+/// the graph and the lock table must be empty.  Lean: Locks/SectionProps.lean (`ended_tx_absent_in_every_interleaving`;
+/// the interleaving that breaks it once the edges are recorded outside the lock-table section is
+/// `drop_guards_first_leaves_ended_holder_witness`).
+/// Several blockers per prepare are the generic way to make the overlap long: the edges are recorded one blocker
+/// after the other, so the end of a later blocker has the time of the earlier `add_wait` calls to run.
+/// `lm_level`: the same round on a bare LockManager + WaitForGraph (try_lock_with_wait_tracking against
+/// release_by_handle_with_wait_cleanup + remove_transaction, the model's `endTx` sequence) — shorter rounds.
+/// Returns (rounds run, rounds in which the preparer was refused, rounds with a violation).
+fn prepare_vs_end_race(rep: &mut Report, r: &mut Rng, name: &'static str, holders: usize, rounds: u64, budget_ms: u64, lm_level: bool, stop_after: u64) -> (u64, u64, u64) {
+    const HOWS: [&str; 4] = ["commit", "abort", "force_resolve(commit)", "force_resolve(abort)"];
+    let stream = format!("threads.prepare_vs_end.{name}");
+    let c = Arc::new(DistributedTxCoordinator::new(ConsensusManager::new(ConsensusConfig::default()), co_config(1_000_000)));
+    let lm = Arc::new(LockManager::new());
+    let g = Arc::new(WaitForGraph::new());
+    // round data for the ender: txs[j] = transaction id of Aj, slots[j] = end site (coordinator) / lock handle (lock manager)
+    let slots: Arc<Vec<AtomicU64>> = Arc::new((0..holders).map(|_| AtomicU64::new(0)).collect());
+    let txs: Arc<Vec<AtomicU64>> = Arc::new((0..holders).map(|_| AtomicU64::new(0)).collect());
+    let ended_ok: Arc<Vec<AtomicU64>> = Arc::new((0..holders).map(|_| AtomicU64::new(0)).collect());
+    let (go, done, delay, quit) = (Arc::new(AtomicU64::new(0)), Arc::new(AtomicU64::new(0)), Arc::new(AtomicU64::new(0)), Arc::new(AtomicU64::new(0)));
+    let ender = {
+        let (c, lm, g, slots, txs, ended_ok, go, done, delay, quit) = (c.clone(), lm.clone(), g.clone(), slots.clone(), txs.clone(), ended_ok.clone(), go.clone(), done.clone(), delay.clone(), quit.clone());
+        std::thread::spawn(move || {
+            let mut round = 0u64;
+            loop {
+                round += 1;
+                let mut spins = 0u64;
+                while go.load(Ordering::Acquire) != round {
+                    if quit.load(Ordering::Relaxed) != 0 { return; }
+                    spins += 1;
+                    if spins % 4096 == 0 { std::thread::yield_now(); } else { std::hint::spin_loop(); }
+                }
+                for _ in 0..delay.load(Ordering::Relaxed) { std::hint::spin_loop(); }
+                for j in 0..slots.len() {
+                    let v = slots[j].load(Ordering::Relaxed);
+                    let ok = if lm_level {
+                        lm.release_by_handle_with_wait_cleanup(v, &g);
+                        g.remove_transaction(txs[j].load(Ordering::Relaxed));
+                        true
+                    } else {
+                        let tx = txs[j].load(Ordering::Relaxed);
+                        match v { 0 => c.commit(tx).is_ok(), 1 => c.abort(tx, "race").is_ok(), 2 => c.force_resolve(tx, true).is_ok(), _ => c.force_resolve(tx, false).is_ok() }
+                    };
+                    ended_ok[j].store(ok as u64, Ordering::Relaxed);
+                }
+                done.store(round, Ordering::Release);
+            }
+        })
+    };
+    let t0 = std::time::Instant::now();
+    let (mut ran, mut refused, mut bad_rounds) = (0u64, 0u64, 0u64);
+    let mut next_tx = 1u64; // lock-manager level: transaction ids are ours
+    let wg: &WaitForGraph = if lm_level { &g } else { c.wait_graph() };
+    'rounds: for round in 1..=rounds {
+        if t0.elapsed() > Duration::from_millis(budget_ms) { break; }
+        let key_base = (round % 7) * 100;
+        let keys: Vec<u64> = (0..holders as u64).map(|j| key_base + j).collect();
+        let mut hows: Vec<u64> = Vec::with_capacity(holders);
+        // ---- set-up (one thread): every Aj holds kj with a recorded Yes vote; B is begun
+        for j in 0..holders {
+            let how = r.below(4);
+            hows.push(how);
+            if lm_level {
+                let tx = next_tx; next_tx += 1;
+                let Ok(h) = lm.try_lock_with_wait_tracking(tx, &[kname(keys[j])], &g, None) else { rep.note(&format!("{stream}: set-up lock refused")); break 'rounds; };
+                slots[j].store(h, Ordering::Relaxed);
+                txs[j].store(tx, Ordering::Relaxed);
+            } else {
+                let Ok(t) = c.begin(&"n1".to_string(), &[0]) else { rep.note(&format!("{stream}: set-up begin refused")); break 'rounds; };
+                let v = c.handle_prepare(&prep(t.tx_id, &[keys[j]], j));
+                let yes = matches!(v, PrepareVote::Yes { .. });
+                let ph = c.record_vote(t.tx_id, 0, v);
+                if !yes || !matches!(ph, Ok(Some(TxPhase::Prepared))) { rep.note(&format!("{stream}: set-up prepare not granted / not Prepared ({ph:?})")); break 'rounds; }
+                slots[j].store(how, Ordering::Relaxed);
+                txs[j].store(t.tx_id, Ordering::Relaxed);
+            }
+        }
+        let b = if lm_level { let t = next_tx; next_tx += 1; t } else { match c.begin(&"n1".to_string(), &[0]) { Ok(t) => t.tx_id, Err(_) => break } };
+        let req = prep(b, &keys, 7);
+        let key_names: Vec<String> = keys.iter().map(|k| kname(*k)).collect();
+        // the phase between the two calls: one side starts up to ~2 µs late
+        let d = r.below(1 + 40 * holders as u64);
+        let (d_prep, d_end) = if r.below(2) == 0 { (d, 0) } else { (0, d) };
+        delay.store(d_end, Ordering::Relaxed);
+        // ---- the race
+        go.store(round, Ordering::Release);
+        for _ in 0..d_prep { std::hint::spin_loop(); }
+        let (b_refused, b_handle, vote_text) = if lm_level {
+            match lm.try_lock_with_wait_tracking(b, &key_names, &g, None) {
+                Ok(h) => (false, Some(h), "Ok(handle)".to_string()),
+                Err(w) => (true, None, format!("Err(WaitInfo {{ conflicting_keys: {} }})", w.conflicting_keys.len())),
+            }
+        } else {
+            let v = c.handle_prepare(&req);
+            let t = match &v { PrepareVote::Yes { .. } => "Yes".to_string(), PrepareVote::Conflict { .. } => "Conflict".to_string(), _ => "No".to_string() };
+            let refused = !matches!(v, PrepareVote::Yes { .. });
+            let _ = c.record_vote(b, 0, v);
+            (refused, None, t)
+        };
+        let mut spins = 0u64;
+        while done.load(Ordering::Acquire) != round {
+            spins += 1;
+            if spins % 4096 == 0 { std::thread::yield_now(); } else { std::hint::spin_loop(); }
+        }
+        ran += 1;
+        if b_refused { refused += 1; }
+        rep.hit(&format!("{stream}.prepare.{}", if b_refused { "refused" } else { "granted" }));
+        // ---- oracle: both calls have returned, B is still live
+        let b_waits_for = wg.waiting_for(b);
+        let mut leftovers = Vec::new();
+        for j in 0..holders {
+            let a = txs[j].load(Ordering::Relaxed);
+            if ended_ok[j].load(Ordering::Relaxed) == 0 { rep.hit(&format!("{stream}.end_refused")); continue; }
+            let (on, wf) = (wg.waiting_on(a), wg.waiting_for(a));
+            if !on.is_empty() || !wf.is_empty() || b_waits_for.contains(&a) {
+                // transaction ids are time-based: name them by their role in the round
+                let name = |t: u64| if t == b { "B".to_string() } else { (0..holders).find(|i| txs[*i].load(Ordering::Relaxed) == t).map_or("other".to_string(), |i| format!("A{}", i + 1)) };
+                let mut on: Vec<String> = on.into_iter().map(name).collect(); on.sort();
+                leftovers.push(json!({"holder": format!("A{}", j + 1), "key": kname(keys[j]), "ended_by": if lm_level { "release_by_handle_with_wait_cleanup + remove_transaction" } else { HOWS[hows[j] as usize] },
+                    "waiting_on(holder)": on, "waiting_for(holder)": wf.len(), "holder in waiting_for(B)": b_waits_for.contains(&a)}));
+            }
+        }
+        let had_leftovers = !leftovers.is_empty();
+        if had_leftovers {
+            bad_rounds += 1;
+            rep.hit(&format!("{stream}.ended_tx_in_wait_graph"));
+            rep.violation("DistributedTxCoordinator/ended_tx_in_wait_graph_prepare_vs_end",
+                "a transaction whose end (commit / abort / force_resolve) returned while another transaction's conflicting prepare was running is still recorded in the wait-for graph after both calls returned",
+                json!({"stream": stream, "round": round, "level": if lm_level { "LockManager + WaitForGraph" } else { "DistributedTxCoordinator" },
+                    "set_up": format!("A1..A{holders} each hold one key ({}..{}) with a recorded Yes vote; B begun", kname(keys[0]), kname(keys[holders - 1])),
+                    "thread_preparer": format!("handle_prepare(B, all {holders} keys) -> {vote_text}"),
+                    "thread_ender": (0..holders).map(|j| format!("{}(A{})", if lm_level { "end" } else { HOWS[hows[j] as usize] }, j + 1)).collect::<Vec<_>>(),
+                    "start_delay_spins": {"preparer": d_prep, "ender": d_end},
+                    "ended_transactions_still_in_graph": leftovers, "edge_count": wg.edge_count(),
+                    "lean": "SectionProps.drop_guards_first_leaves_ended_holder_witness: B scans (finds A), the lock-table guards go, A releases + leaves the graph + ends, B records B -> A"}));
+        }
+        // ---- B ends; nothing may be left
+        if lm_level {
+            if let Some(h) = b_handle { lm.release_by_handle_with_wait_cleanup(h, &g); }
+            g.remove_transaction(b);
+        } else if c.commit(b).is_err() {
+            let _ = c.abort(b, "round over");
+        }
+        let locks_left = if lm_level { lm.active_lock_count() } else { c.lock_manager().active_lock_count() };
+        if !wg.is_empty() || wg.edge_count() != 0 {
+            rep.hit(&format!("{stream}.graph_not_empty_after_round"));
+            if !had_leftovers {
+                rep.violation("DistributedTxCoordinator/wait_graph_not_empty_after_prepare_vs_end", "every transaction of the round ended but the wait-for graph is not empty",
+                    json!({"stream": stream, "round": round, "holders": holders, "edge_count": wg.edge_count(), "transaction_count": wg.transaction_count()}));
+            }
+            wg.clear();
+        }
+        if locks_left != 0 {
+            rep.violation("DistributedTxCoordinator/locks_remain_after_prepare_vs_end", "every transaction of the round ended but locks remain", json!({"stream": stream, "round": round, "left": locks_left}));
+            break;
+        }
+        if bad_rounds >= stop_after { break; }
+    }
+    quit.store(1, Ordering::Relaxed);
+    let _ = ender.join();
+    rep.case(&stream, None);
+    rep.hit_n(&format!("{stream}.rounds"), ran);
+    (ran, refused, bad_rounds)
+}
+
 /// stream 10: coordinator op scripts (begin / handle_prepare / record_vote / every end-of-transaction site /
 /// cleanup_timeouts / recover / release_orphaned_locks / save-load) on the real coordinator vs the model
 fn coord_ops_stream(m: &mut Model, rep: &mut Report, root: &Rng, scale: u64) {
@@ -2540,6 +2897,11 @@ fn main() {
         "co.recover.to_committing", "co.recover.timed_out", "co.sweep.removed", "co.sweep.none", "co.sweep.kept_lock_of_pending_tx",
         "co.sweep.boundary_acquired_eq_start_kept", "co.saveload", "co.doom", "co.end.lock_left.vote_in_flight", "co.end.lock_left.vote_refused",
         "threads.sweep_vs_end.directed.no_block", "threads.sweep_vs_end.hammer.no_block", "threads.sweep_vs_end.hammer_big_table.no_block",
+        "section.calls.prepare.granted", "section.calls.prepare.refused", "section.calls.end",
+        "section.witness.drop_guards_first.ended_holder_in_graph", "section.witness.guards_held.release_refused",
+        "threads.prepare_vs_end.k16.prepare.refused", "threads.prepare_vs_end.k4.prepare.refused", "threads.prepare_vs_end.k1.prepare.refused",
+        "threads.prepare_vs_end.k1.prepare.granted", "threads.prepare_vs_end.lm.k16.prepare.refused", "threads.prepare_vs_end.lm.k1.prepare.refused",
+        "threads.prepare_vs_end.lm.k1.prepare.granted",
         "graph2.clear", "graph2.stale.removed", "graph2.stale.none", "graph2.stale.boundary_elapsed_eq_ttl_kept", "graph2.wcc.true", "graph2.wcc.false",
     ].iter().map(|s| s.to_string()).collect();
     let mut m = Model::spawn(&args.driver);
@@ -2553,6 +2915,26 @@ fn main() {
         rep.write(&args.out);
         return;
     }
+    if args.extra.iter().any(|x| x == "--only-prepare-vs-end") {
+        // dev: hit rates of the aligned rounds (per 10 000 rounds), no early stop on the budget
+        {
+            let mut r = root.fork("sched.prepare_vs_end");
+            let t = std::time::Instant::now();
+            for i in 0..24 { sched_prepare_vs_end(&mut rep, &mut r, 1 + (i % 3) as usize); }
+            for (k, v) in rep.distribution.iter().filter(|(k, _)| k.starts_with("sched.prepare_vs_end") || k.starts_with("violations.")) { eprintln!("[sched.prepare_vs_end] {k} = {v}"); }
+            eprintln!("[sched.prepare_vs_end] 24 cases in {:.2}s", t.elapsed().as_secs_f64());
+        }
+        let mut r = root.fork("prepare_vs_end");
+        for (name, k, lm_level) in [("coord.k1", 1usize, false), ("coord.k4", 4, false), ("coord.k16", 16, false), ("coord.k32", 32, false), ("lm.k1", 1, true), ("lm.k16", 16, true), ("lm.k32", 32, true)] {
+            let t = std::time::Instant::now();
+            let before = rep.distribution.get("violations.DistributedTxCoordinator/ended_tx_in_wait_graph_prepare_vs_end").copied().unwrap_or(0);
+            let (ran, refused, _) = prepare_vs_end_race(&mut rep, &mut r, name, k, 10_000, 60_000, lm_level, u64::MAX);
+            let after = rep.distribution.get("violations.DistributedTxCoordinator/ended_tx_in_wait_graph_prepare_vs_end").copied().unwrap_or(0);
+            eprintln!("[prepare_vs_end] {name}: rounds {ran}, refused {refused}, rounds with an ended tx in the graph {}, {:.2}s", after - before, t.elapsed().as_secs_f64());
+        }
+        rep.write(&args.out);
+        return;
+    }
     let t_start = std::time::Instant::now();
     let lap = |name: &str| eprintln!("[corr_locks] {name} done at {:.1}s", t_start.elapsed().as_secs_f64());
     // ---- stream 0 (directed regression, runs first): one thread committing 16-shard transactions over a 20 000-entry
@@ -2560,6 +2942,27 @@ fn main() {
     //      the shortest history in which the sweep's lock order is the only thing preventing a deadlock
     sweep_vs_end_lock_order(&mut rep, "directed", 20_000, 16, false, if args.thorough { 1_500 } else { 300 }, if args.thorough { 8_000 } else { 3_000 });
     lap("threads.sweep_vs_end.directed");
+    // ---- stream 0b (directed, runs early): a conflicting prepare against the end of its blockers, aligned rounds of
+    //      exactly those two calls on the real coordinator (16 / 4 / 1 blockers per prepare) and on a bare
+    //      LockManager + WaitForGraph; oracle after both returned: no ended transaction is a waiter or a holder
+    {
+        let mut r = root.fork("prepare_vs_end");
+        let sc = if args.thorough { 10 } else { 1 };
+        for (name, k, lm_level, rounds, budget) in [("k16", 16usize, false, 1_500u64, 1_500u64), ("k4", 4, false, 1_500, 800), ("k1", 1, false, 4_000, 800),
+                                                   ("lm.k16", 16, true, 2_000, 800), ("lm.k1", 1, true, 4_000, 400)] {
+            let (ran, refused, bad) = prepare_vs_end_race(&mut rep, &mut r, name, k, rounds * sc, budget * sc, lm_level, 3);
+            if rep.samples.len() < 8 {
+                rep.sample(json!({"stream": format!("threads.prepare_vs_end.{name}"), "blockers_per_prepare": k, "rounds": ran, "prepare_refused": refused, "rounds_with_an_ended_tx_in_the_graph": bad}));
+            }
+        }
+    }
+    {
+        let mut r = root.fork("sched.prepare_vs_end");
+        for i in 0..(if args.thorough { 120 } else { 24 }) {
+            sched_prepare_vs_end(&mut rep, &mut r, 1 + (i % 3) as usize);
+        }
+    }
+    lap("threads.prepare_vs_end");
     // ---- stream 1: lock-table op sequences (virtual clock), with shrinking of a disagreement
     let mut r = root.fork("table");
     let mut failed_cases = 0;
@@ -2694,6 +3097,14 @@ fn main() {
     old_sequence_regression(&mut m, &mut rep);
     verif_clock::set_now_ms(None);
     lap("table+graph");
+    // ---- stream 6a: the critical-section model at call granularity + its witness schedules
+    section_witness(&mut m, &mut rep);
+    let mut r = root.fork("section.calls");
+    for _ in 0..600 * scale {
+        section_calls_case(&mut m, &mut rep, &mut r);
+    }
+    verif_clock::set_now_ms(None);
+    lap("section.calls");
     // ---- stream 6b: real threads under the deterministic scheduler, LockManager operations
     let mut r = root.fork("sched.lm");
     for _ in 0..120 * scale {
@@ -2742,5 +3153,6 @@ fn main() {
     rep.note("threads: LockManager and DistributedTxCoordinator never call TensorStore, so nverif::sched finds no yield point inside their operations (distribution keys sched.lm.no_yield_inside_operations / sched.coord.no_yield_inside_calls); sched.* therefore yields BETWEEN operations: deterministic operation-level interleavings of real threads whose linearisation is replayed on the model (sched.lockmanager) or judged by the property oracle (sched.coordinator). Every mutating LockManager operation takes locks.write() then tx_locks.write() before its first read and releases both after its last write; readers (is_locked, lock_holder, keys_for_transaction, lock_count_for_transaction) take one lock, to_serializable both in the same order: each operation is one critical section, so the sequential theorems apply per linearisation. Races inside operations are left to the OS-thread hammers threads.hammer (LockManager) and threads.coordinator (whole transaction lives).");
     rep.note("WaitForGraph operations are NOT single critical sections (edges, reverse_edges, wait_started, priorities are separate RwLocks taken one after the other). In the coordinator add_wait runs only inside the lock-table critical section and a transaction's calls are ordered; threads.graph_hammer drives the graph without that discipline and reports reverse-index divergence at quiescence as an observation");
     rep.note("lock order (threads.sweep_vs_end.*): OS threads on one real coordinator, every thread publishes the call it is in and a progress counter; a thread inside a call without progress for 1500 ms is reported as a violation whose class is computed from the calls the blocked threads are in (the sweep + end-of-transaction sites only: DistributedTxCoordinator.release_orphaned_locks/lock_order_deadlock_with_end_of_tx, fixed in /repo aa0e56f6). The acquisition order itself cannot be observed (private RwLock fields, no yield point inside the coordinator); the Lean lock-order model (OrderModel.lean) is a transcription of the source");
+    rep.note("prepare against end (threads.prepare_vs_end.*): aligned rounds of exactly two racing calls on one real coordinator — handle_prepare(B, keys held by A1..Ak) against end(A1);..;end(Ak) (commit / abort / force_resolve) — judged after both returned and before B ends: no Aj whose end returned Ok is in waiting_on / waiting_for / waiting_for(B). The window between 'conflict found' and 'edge recorded' cannot be scheduled from outside (no yield point inside try_lock_with_wait_tracking; proposed hook: /verif/proposed/C12-hook-wait-tracking-yield.diff); several blockers per prepare make the overlap long (the edges are recorded one blocker after the other). Measured with the edges recorded AFTER the lock-table guards were dropped (scratch tree): rounds with an ended transaction in the graph per 10 000 rounds — coordinator k=1: 1..8, k=4: 700..900, k=16: 4000..4200, k=32: 5200..5600; lock manager k=1: 0..2, k=16: 2200..2500, k=32: 2800..3100; unchanged tree: 0 in every configuration. Lean: Locks/SectionModel.lean + SectionProps.lean (every interleaving, any number of threads)");
     rep.write(&args.out);
 }
